@@ -61,7 +61,8 @@ var shapes = [][][]int{
 	{{1, 4}, {2, 4}, {3, 4}, {4}, {}},
 }
 
-func genUniverse(r *vc.Rand, shape [][]int) ([]vrefl.File, vc.Val, []string) {
+// rootOnly: services in f0 only, so that everything below its direct imports is reached by file name, never by symbol
+func genUniverse(r *vc.Rand, shape [][]int, rootOnly bool) ([]vrefl.File, vc.Val, []string) {
 	nf := 1 + r.Intn(6)
 	if shape != nil {
 		nf = len(shape)
@@ -84,6 +85,9 @@ func genUniverse(r *vc.Rand, shape [][]int) ([]vrefl.File, vc.Val, []string) {
 		ns := r.Intn(3)
 		if i == 0 && ns == 0 {
 			ns = 1
+		}
+		if i > 0 && rootOnly {
+			ns = 0
 		}
 		for s := 0; s < ns; s++ {
 			svc := vrefl.Service{Name: fmt.Sprintf("S%d", s)}
@@ -141,10 +145,11 @@ func main() {
 	for i := 0; i < n; i++ {
 		rr := r.Fork()
 		var shape [][]int
-		if i < len(shapes)*9 {
-			shape = shapes[i/9]
+		if i < 2*len(shapes)*9 {
+			shape = shapes[(i/9)%len(shapes)]
 		}
-		files, uv, svcs := genUniverse(rr, shape)
+		rootOnly := i >= len(shapes)*9 && (shape != nil || rr.Chance(30))
+		files, uv, svcs := genUniverse(rr, shape, rootOnly)
 		// listed names: a random subset of the defined services, plus duplicates, invalid and administrative names
 		var listed []string
 		for _, s := range svcs {
